@@ -14,12 +14,16 @@ Binders
   W  spec/RegexWalk.tla: one compiled object reused over a TLC-chosen sequence of matches / matches+Match / tokenize /
      replace calls (history independence); tokenize/replace results must be one of the cuts the specification allows.
 
-Mutants (mutants/C11/*.diff), all DETECTED by the quick tier:
-  rep-max-plus1      {n,m} compiled as {n,m+1}
-  subtract-boundary  RangeToken::subtractRanges boundary slip
-  space-no-tab       \\s without TAB
-  bm-shift           Boyer-Moore pre-filter shift table error (fixed-string optimisation rejects a match)
-  union-first-only   matchUnion returns the first alternative that matches instead of the longest
+Mutants (mutants/C11/*.diff), each run through the complete quick tier in a scratch worktree:
+  rep-max-plus1        {n,m} compiled as {n,m+1}                                           DETECTED (T, schema mode: /-{0,1}/ accepts "--")
+  bm-shift             Boyer-Moore shift table off by one (pre-filter rejects a match)    DETECTED (T, XPath mode: /-1/ misses "\t-1")
+  subtract-boundary    RangeToken::subtractRanges keeps the subtrahend's last character   DETECTED (T: /[\\--a-[ -\\-]]*/ accepts "-")
+  space-no-tab         \\s without TAB                                                     run not finished when this was written (alphabet Alpha6 contains TAB)
+  complement-boundary  RangeToken::complementRanges includes the next range's first char  DETECTED (T: /\\S*/ accepts " ")
+  union-first-only     matchUnion returns the first alternative that matches              NOT detected: every string it newly rejects is one whose
+                       greedy-first match is shorter than the string, i.e. exactly the class of the open known finding
+                       C11-anchored-first-success, so the disagreements are filed under that finding (limit of the classification while
+                       that defect is open; once it is fixed the mutant's cases become violations).
 """
 import json
 import os
